@@ -107,7 +107,7 @@ func putVarint(b []byte, v uint64) []byte {
 	return append(b, tmp[:n]...)
 }
 
-var wtNum = map[string]uint64{"varint": 0, "fix64": 1, "len": 2, "group": 3, "fix32": 5}
+var wtNum = map[string]uint64{"varint": 0, "fix64": 1, "len": 2, "group": 3, "fix32": 5, "varintcut": 0, "fix64cut": 1, "lencut": 2, "fix32cut": 5}
 
 // encodeTree writes fields in exactly the given order.
 func encodeTree(fs []wField) []byte {
@@ -136,6 +136,19 @@ func encodeTree(fs []wField) []byte {
 			b = append(b, p...)
 		case "group":
 			// a start-group tag without content
+		case "fix64cut", "fix32cut":
+			// a fixed-width field of which only the first K bytes are there
+			k, _ := strconv.Atoi(strings.TrimPrefix(f.V, "c"))
+			b = append(b, bytes.Repeat([]byte{0x11}, k)...)
+		case "varintcut":
+			// K bytes of a varint, every one announcing a further byte
+			k, _ := strconv.Atoi(strings.TrimPrefix(f.V, "c"))
+			b = append(b, bytes.Repeat([]byte{0x81}, k)...)
+		case "lencut":
+			// a length of 5 followed by K < 5 bytes
+			k, _ := strconv.Atoi(strings.TrimPrefix(f.V, "c"))
+			b = append(b, 5)
+			b = append(b, bytes.Repeat([]byte{'x'}, k)...)
 		}
 	}
 	return b
@@ -479,6 +492,17 @@ func cmdC08(args []string) error {
 		check(r.Tree, encodeTree(r.Tree), true)
 		R.Distinct++
 	}
+	// a truncated last field at every nesting level, enclosing lengths consistent (Wire.tla, Truncated): whether
+	// such a message is refused or read as far as it goes is the decoder's choice - it must not crash, hang or balloon
+	var trows []wRow
+	if err := ReadJSON(filepath.Join(args[0], "wire_truncated_rows.json"), &trows); err != nil {
+		return err
+	}
+	for _, r := range trows {
+		check(r.Tree, encodeTree(r.Tree), false)
+		R.Distinct++
+	}
+	R.Count("truncated_field_messages", len(trows))
 	// small valid messages to corrupt
 	var bases [][]byte
 	for _, r := range rows {
